@@ -564,6 +564,11 @@ def grams_for(prop, tier, seed):
     if prop in ("C01", "C02", "C03", "C04", "C05", "C07", "C09", "C10"):
         have = {x["id"] for x in g}
         g += [x for x in families.fam_trig(tier) if x["id"] not in have]
+    if prop == "C10":
+        # the same failures on a Position / Span that starts inside a longer string: the report stays inside the given (sub-)input
+        for x in g:
+            if x["id"].startswith(("er", "tr", "tg")) and not x.get("ctxs"):
+                x["ctxs"] = [[[], []], [cps("ab"), cps("a")], [cps("é\n"), []]]
     return g
 
 
